@@ -644,6 +644,10 @@ const FGrammar = "grammar"
 
 // Grammar generates one history. ok=false when the checker rejects the program.
 func Grammar(r *rand.Rand) (prog.History, bool) {
+	// a third of the programs come from the stateful-object family (stateful.go)
+	if r.Intn(3) == 0 {
+		return Stateful(r)
+	}
 	g := &gram{r: r}
 	hist := prog.History{Origin: "grammar"}
 	asContract := r.Intn(10) < 3
